@@ -10,6 +10,7 @@ import (
 	"crypto/sha256"
 	"fmt"
 	"math/big"
+	"strings"
 	"sync"
 
 	"verif/vk"
@@ -210,7 +211,7 @@ var hashOwner sync.Map
 
 func checkHashOwner(r *vk.Run, kind string, h common.Hash, wire []byte) {
 	if prev, loaded := hashOwner.LoadOrStore(h, wireDigest(wire)); loaded && prev.(string) != wireDigest(wire) {
-		r.Violation("tx-hash-collision:"+kind, fmt.Sprintf("two different %s encodings share the transaction hash %x (the mempool twin lookup is keyed by it)", kind, h),
+		r.Violation("tx-hash-collision:"+strings.SplitN(strings.SplitN(kind, "/", 2)[0], "(", 2)[0], fmt.Sprintf("two different %s encodings share the transaction hash %x (the mempool twin lookup is keyed by it)", kind, h),
 			replay{"kind": kind, "wireA_sha256_16": hexb([]byte(prev.(string))), "wireB": hexb(wire)})
 	}
 }
